@@ -70,15 +70,16 @@ func (vs *VoteSummary) SetPrevotePowers(vals []Validator, prevotes map[string]gc
 
 	var maxHash string
 	var maxPow uint64
-	var bs bitset.BitSet
+	var bs, present bitset.BitSet
 	for blockHash, proof := range prevotes {
 		proof.SignatureBitSet(&bs)
 		var blockPow uint64
 		for i, ok := bs.NextSet(0); ok && int(i) < len(vals); i, ok = bs.NextSet(i + 1) {
-			valPow := vals[int(i)].Power
-			vs.TotalPrevotePower += valPow
-			blockPow += valPow
+			blockPow += vals[int(i)].Power
 		}
+		// A validator that signed several targets must be counted once in the total,
+		// so the total is taken over the union of the signer sets after the loop.
+		present.InPlaceUnion(&bs)
 
 		vs.PrevoteBlockPower[string(blockHash)] = blockPow
 		if blockPow == maxPow {
@@ -87,6 +88,10 @@ func (vs *VoteSummary) SetPrevotePowers(vals []Validator, prevotes map[string]gc
 			maxPow = blockPow
 			maxHash = blockHash
 		}
+	}
+
+	for i, ok := present.NextSet(0); ok && int(i) < len(vals); i, ok = present.NextSet(i + 1) {
+		vs.TotalPrevotePower += vals[int(i)].Power
 	}
 
 	vs.MostVotedPrevoteHash = maxHash
@@ -99,15 +104,16 @@ func (vs *VoteSummary) SetPrecommitPowers(vals []Validator, precommits map[strin
 
 	var maxHash string
 	var maxPow uint64
-	var bs bitset.BitSet
+	var bs, present bitset.BitSet
 	for blockHash, proof := range precommits {
 		proof.SignatureBitSet(&bs)
 		var blockPow uint64
 		for i, ok := bs.NextSet(0); ok && int(i) < len(vals); i, ok = bs.NextSet(i + 1) {
-			valPow := vals[int(i)].Power
-			vs.TotalPrecommitPower += valPow
-			blockPow += valPow
+			blockPow += vals[int(i)].Power
 		}
+		// A validator that signed several targets must be counted once in the total,
+		// so the total is taken over the union of the signer sets after the loop.
+		present.InPlaceUnion(&bs)
 
 		vs.PrecommitBlockPower[string(blockHash)] = blockPow
 		if blockPow == maxPow {
@@ -116,6 +122,10 @@ func (vs *VoteSummary) SetPrecommitPowers(vals []Validator, precommits map[strin
 			maxPow = blockPow
 			maxHash = blockHash
 		}
+	}
+
+	for i, ok := present.NextSet(0); ok && int(i) < len(vals); i, ok = present.NextSet(i + 1) {
+		vs.TotalPrecommitPower += vals[int(i)].Power
 	}
 
 	vs.MostVotedPrecommitHash = maxHash
